@@ -88,6 +88,7 @@ def ext_send(E, args, node):
                                                                 "view": buf.view, "elem": leaf_type(blk, shape)}]
     r = E.fresh_int("send_rc")
     E.assume(z3.And(r.t >= -1, r.t <= zt(n)))
+    E.state.ghost["sent"][-1]["rc"] = r.t          # what the socket reports: -1 (error) .. n (all octets taken)
     return V(r.t, -1, n.hi if isinstance(n, V) else None)
 
 
